@@ -1,0 +1,23 @@
+//go:build verif
+// +build verif
+
+package store
+
+import "sync/atomic"
+
+// VerifPointFn, when set, is called at every verifPoint (build tag verif only).
+// The harness uses it to count, park or snapshot at named boundaries.
+var verifPointFn atomic.Value // func(string)
+
+func VerifSetPointFn(f func(string)) {
+	if f == nil {
+		f = func(string) {}
+	}
+	verifPointFn.Store(f)
+}
+
+func verifPoint(name string) {
+	if f, ok := verifPointFn.Load().(func(string)); ok && f != nil {
+		f(name)
+	}
+}
